@@ -101,6 +101,8 @@ def main(tier, seed):
         t_ = open(pth).read()
         me = re.search(r"^-- expect:([^\n]*)$", t_, re.M)
         mq = re.search(r"^-- quoted: (\S+)$", t_, re.M)
+        if re.search(r"^-- known: ", t_, re.M):
+            continue        # an open finding of C04: the unchanged tools accept this faulty schema, there is no diagnostic to judge
         if me and mq:
             catalogue.append(("catalogue", "corpus/C04/diag/" + os.path.basename(pth), t_, {"quoted": mq.group(1), "codes_any": [int(c[2:]) for c in me.group(1).split()]}))
     for k in range(nsch):
